@@ -99,6 +99,15 @@ def run_spec(spec, repo_root=None, timeout=1500):
                     out["fails"].append(json.loads(m.group(1)))
                 except Exception:
                     out["fails"].append(dict(raw=m.group(1)))
+            m = re.search(r"VXW-KNOWN (\{.*\}) \[(\w+):", line)
+            if m:
+                # a contradiction the witness itself recognises as a LISTED known finding: check.py looks the id up in
+                # known_findings.txt (obligation <Cxx>.witness.<id>); if it is not listed there it counts as a failure
+                try:
+                    out.setdefault("known", []).append(dict(id=m.group(2), case=json.loads(m.group(1))))
+                except Exception:
+                    out.setdefault("known", []).append(dict(id=m.group(2), case=dict(raw=m.group(1)[:500])))
+                continue
             m = re.search(r"VXW-NOTE (.*)", line)
             if m and len(out.setdefault("notes", [])) < 20:
                 out["notes"].append(m.group(1)[:300])
